@@ -79,7 +79,10 @@ theorem skel_doCall_shape :
   "defer func{…}()",
   "  if i := recover(); i != nil || !returned",
   "    err = xerrors.Errorf(\"panic in rpc method '%s': %s\", methodName, i)",
-  "out = f.Call(params)",
+  "if f.Type().IsVariadic()",
+  "  out = f.CallSlice(params)",
+  "else",
+  "  out = f.Call(params)",
   "returned = true",
   "return out, nil"] := rfl
 
